@@ -21,7 +21,7 @@ Tags
   mut(base, events)                    ev(kind, name, args, site)
   opaque(reason)
 """
-import collections, sys
+import collections, re, sys
 from .facts import callee_name, callee_decl, callee_is_local
 from .cfg import CFG
 
@@ -923,6 +923,11 @@ class Engine:
             g = node['func'].get('gargs', [])
             if len(g) == 1 and g[0] in self.SIZES:
                 return T('const', self.SIZES[g[0]])
+        if decl in ('std::convert::From::from', 'std::convert::Into::into') and len(args) == 1 and res:
+            # lossless widening between integer types (`usize::from(x as u8)`) is the cast it stands for
+            m_ = re.search(r'<impl (?:std::convert::)?From<(u8|u16|u32|u64|usize|i8|i16|i32|i64|isize|bool)> for (u8|u16|u32|u64|u128|usize|i8|i16|i32|i64|i128|isize)>::from$', res)
+            if m_:
+                return T('cast', m_.group(2), args[0])
         if decl in ('std::option::Option::<T>::unwrap_or', 'std::result::Result::<T, E>::unwrap_or') and len(args) == 2:
             # the payload when present (wrappers are transparent), the default otherwise
             return mk_phi([args[0], args[1]])
